@@ -16,7 +16,7 @@ package policy
 //@     forall j int :: 0 <= j && j < len(p) ==> ppasses(sem(p[j], n))
 //@
 //@ func (Policy).Match
-//@   requires forall j int :: 0 <= j && j < len(p) ==> p[j] != nil
+//@   requires forall j int :: 0 <= j && j < len(p) ==> p[j] != nil && wfStmt(p[j])
 //@   ensures [C03,C05,C11] all: result0 == policyOK(p, node)
 //@   ensures [C09] leaf: !result0 ==> result1 != nil
 //@   assigns [C20] nothing
@@ -25,7 +25,7 @@ package policy
 //@           decreases len(p) - k
 //@
 //@ func (Policy).PartialMatch
-//@   requires forall j int :: 0 <= j && j < len(p) ==> p[j] != nil
+//@   requires forall j int :: 0 <= j && j < len(p) ==> p[j] != nil && wfStmt(p[j])
 //@   ensures [C11] all: result0 == policyPartialOK(p, node)
 //@   assigns [C20] nothing
 //@   loop 0: invariant 0 <= k && k <= len(p)
